@@ -13,6 +13,7 @@ pub mod stamql;
 pub mod webanno;
 pub mod concurrent;
 pub mod untrusted;
+pub mod query;
 
 pub fn run(family: &str, opts: &Opts) -> Option<Report> {
     // "family@m<interval>s<0|1>" runs the family under a store configuration variant
@@ -48,6 +49,7 @@ fn run_base(family: &str, opts: &Opts) -> Option<Report> {
         "webanno" => Some(webanno::run(opts)),
         "concurrent" => Some(concurrent::run(opts)),
         "untrusted" => Some(untrusted::run(opts)),
+        "query" => Some(query::run(opts)),
         _ => None,
     }
 }
@@ -64,6 +66,7 @@ pub fn exec_line(line: &str) -> Option<String> {
         Some("ql") => Some(stamql::exec_line(line)),
         Some("wj") => Some(webanno::exec_line(line)),
         Some("tid") => Some(untrusted::exec_line(line)),
+        Some("hs") | Some("lim") => Some(query::exec_line(&crate::common::new_store(), line)),
         _ => None,
     }
 }
